@@ -968,6 +968,11 @@ class AdapterRegistry(BaseAdapterRegistry):
 
         super()._setBases(bases)
 
+        # Our resolution order is part of the resolution order of
+        # every registry that has us as a base.
+        for sub in tuple(self._v_subregistries.keys()):
+            sub._setBases(sub.__bases__)
+
     def changed(self, originally_changed):
         super().changed(originally_changed)
 
@@ -976,7 +981,15 @@ class AdapterRegistry(BaseAdapterRegistry):
 
 
 class VerifyingAdapterLookup(AdapterLookupBase, VerifyingBase):
-    pass
+
+    def changed(self, originally_changed):
+        # We get no notifications. One of the registries above ours may
+        # have been given new bases, which changes our resolution order.
+        registry = self._registry
+        new_ro = ro.ro(registry)
+        if new_ro != registry.ro:
+            registry.ro = new_ro
+        super().changed(originally_changed)
 
 
 @implementer(IAdapterRegistry)
